@@ -4,7 +4,9 @@
    handlers / push receivers are compared with what the real callers and handlers observed.
    inputs   (nLIM GZTAB CALLS_A CALLS_B FRAMES_AB FRAMES_BA)
             GZTAB = ((xPLAIN xPACKED) ...)   CALLS_X = ((zSEQ nIDX) ...)   FRAMES = (xFRAME ...)
-   observed (RES_A RES_B)   RES_X = (COMPLETIONS SEEN)
+   observed (RES_A RES_B strue)   RES_X = (COMPLETIONS SEEN); the third component says that the
+            REPLY frames the model's dispatcher produces for the CALL frames an endpoint received
+            (handler = the harness transform) are byte for byte the REPLY frames it really wrote
             COMPLETIONS = ((nIDX zCODE xBODY ((xK xV) ...)) ...)   ascending IDX
             SEEN        = ((zSEQ nMTYPE xMETHOD xBODY ((xK xV) ...)) ...)   ascending SEQ
    A frame list in which some Write is not exactly one decodable frame makes the model answer
@@ -16,8 +18,22 @@ From Verif Require Import Base.Bytes Base.Val Base.Outcome Model.Quote Model.Arg
 From Verif Require Corr.C12.
 Import ListNotations.
 
-Definition null_handler (s : side) (method body : bytes) (meta : list kv) : bytes * list kv * status :=
-  ([], [], status_zero).
+(* the handlers of harness/cmd/c01: result = "re<" ++ argument ++ ">" (inside the quotes when the
+   body travels as a JSON string, where encoding/json writes < and > as \u003c and \u003e), reply metadata rtag = the request's "tag" value and
+   r0 = "re<" ++ the request's "t0" value ++ ">" *)
+Definition re_of (b : bytes) : bytes := str "re<" ++ b ++ str ">".
+Definition strip_last (b : bytes) : bytes := frev (tl (frev b)).
+Definition harness_body (body : bytes) : bytes :=
+  match body with
+  | x22 :: r => x22 :: (str "re\u003c" ++ strip_last r ++ str "\u003e") ++ [x22]
+  | _ => re_of body
+  end.
+Definition meta_get (l : list kv) (k : bytes) : bytes :=
+  match args_peek l k with Some v => v | None => [] end.
+Definition harness_handler (s : side) (method body : bytes) (meta : list kv) : bytes * list kv * status :=
+  (harness_body body,
+   [(str "rtag", meta_get meta (str "tag")); (str "r0", re_of (meta_get meta (str "t0")))],
+   status_zero).
 
 Fixpoint calls_of (l : list val) : option (list (Z * N)) :=
   match l with
@@ -97,14 +113,32 @@ Fixpoint seen_vals (hs : list hin) (ks : list (byte * Z)) : list (Z * val) :=
   | _, _ => []
   end.
 
-Definition side_result (cfg : config) (s : side) (cs : list (Z * N)) (fs : list bytes) : val :=
+Definition is_reply_frame (cfg : config) (f : bytes) : bool :=
+  match raw_unpack (cf_reg cfg) (cf_lim cfg) f with
+  | Ok (m, _, _, _) => beqb (m_mtype m) x02
+  | _ => false
+  end.
+
+(* the REPLY frames the model's handleCall/writeReply produced at this endpoint are, byte for
+   byte, the REPLY frames the real endpoint wrote (as a multiset: each model frame is among the
+   written ones and the numbers agree) *)
+Definition replies_match (cfg : config) (e : ep) (written : list bytes) : bool :=
+  let real := List.filter (is_reply_frame cfg) written in
+  let mine := map fr_bytes (e_outbox e) in
+  Nat.eqb (length real) (length mine) &&
+  forallb (fun f => existsb (bytes_eqb f) real) mine &&
+  forallb (fun f => existsb (bytes_eqb f) mine) real.
+
+Definition side_result (cfg : config) (s : side) (cs : list (Z * N)) (fs written : list bytes)
+  : val * bool :=
   let st0 := with_ep init s (ep_with_calls cs) in
   match feed_all cfg s st0 fs with
   | Some st =>
       let e := ep_of st s in
-      VL [VL (sortZ (completions e));
-          VL (sortZ (seen_vals (frev (e_seen e)) (handled_seqs cfg fs [])))]
-  | None => vsym "desync"
+      (VL [VL (sortZ (completions e));
+           VL (sortZ (seen_vals (frev (e_seen e)) (handled_seqs cfg fs [])))],
+       replies_match cfg e written)
+  | None => (vsym "desync", false)
   end.
 
 Definition run (inp : val) : option val :=
@@ -112,8 +146,10 @@ Definition run (inp : val) : option val :=
   | VL [VN lim; VL gz; VL ca; VL cb; VL fab; VL fba] =>
       match Corr.C12.pairs_of gz, calls_of ca, calls_of cb, frames_of fab, frames_of fba with
       | Some t, Some csa, Some csb, Some ab, Some ba =>
-          let cfg := mkCfg true (Corr.C12.registry_of t) lim null_handler in
-          Some (VL [side_result cfg SA csa ba; side_result cfg SB csb ab])
+          let cfg := mkCfg true (Corr.C12.registry_of t) lim harness_handler in
+          let '(ra, oka) := side_result cfg SA csa ba ab in
+          let '(rb, okb) := side_result cfg SB csb ab ba in
+          Some (VL [ra; rb; vbool (oka && okb)])
       | _, _, _, _, _ => None
       end
   | _ => None
